@@ -1560,6 +1560,7 @@ func (v *VMValue) ComputedExecute(ctx *Context, detail *BufferSpan) *VMValue {
 	vm.RandSrc = ctx.RandSrc
 	vm.forceSolveDetail = true
 	vm.CustomFlag = ctx.CustomFlag
+	vm.CustomDiceInfo = ctx.CustomDiceInfo // 没有预编译代码的函数体/计算值(RunExpr、反序列化得到的值)在子虚拟机里解析，要认得已注册的自定义骰子语法
 	if ctx.Config.OpCountLimit > 0 && vm.NumOpCount > vm.Config.OpCountLimit {
 		vm.Error = errors.New("允许算力上限")
 		ctx.Error = vm.Error
@@ -1660,6 +1661,7 @@ func (v *VMValue) FuncInvokeRaw(ctx *Context, params []*VMValue, useUpCtxLocal b
 	ctx.NumOpCount = vm.NumOpCount       // 防止无限递归
 	vm.RandSrc = ctx.RandSrc
 	vm.CustomFlag = ctx.CustomFlag
+	vm.CustomDiceInfo = ctx.CustomDiceInfo // 没有预编译代码的函数体/计算值(RunExpr、反序列化得到的值)在子虚拟机里解析，要认得已注册的自定义骰子语法
 	if ctx.Config.OpCountLimit > 0 && vm.NumOpCount > vm.Config.OpCountLimit {
 		vm.Error = errors.New("允许算力上限")
 		ctx.Error = vm.Error
